@@ -91,5 +91,5 @@ def oracle(c, ans):
 def check(run):
     cases = gen(run)
     return asmfam.run_family(run, "C09", cases, oracle,
-                             "for each width N: operand 256^N-1 / 256^N as constant, arithmetic, expression macro, macro argument, negative; backward/forward labels at the push1/push2 boundary; label moved across the boundary by back-patching; %push at 2^256-1 / 2^256 / negative; random values; distinct = distinct sources",
+                             "for each width N: operand 256^N-1 / 256^N as constant, arithmetic (sum and product reaching 256^N), expression macro, macro argument, negative; backward/forward labels at the push1/push2 boundary; label moved across the boundary by back-patching; %push at 2^256-1 / 2^256 / negative, products reaching 2^256 (also with a label factor); random values; distinct = distinct sources",
                              "operand range checks")
